@@ -36,20 +36,27 @@ type toolCase struct {
 	// Before: if present, the tool is first run on these files in the same directory, so the run
 	// under test overwrites existing (possibly longer) outputs, as every real update does.
 	Before map[string]gen.WordFile `json:"before,omitempty"`
+	// FaultTarget: the first download of this upstream file is cut half way (full Content-Length
+	// announced, connection closed early). The unchanged tool aborts; a tool that carries on must
+	// still write exactly the input lines. Outside the property's stated domain for a failing run:
+	// only a run that exits 0 is judged.
+	FaultTarget string `json:"fault_target,omitempty"`
 }
 
 // in-process upstream server: /<case id>/<name>.txt
 var upstream struct {
 	sync.Mutex
-	once  sync.Once
-	base  string
-	files map[string][]byte
-	err   error
+	once   sync.Once
+	base   string
+	files  map[string][]byte
+	faults map[string]bool // path -> cut the next response half way
+	err    error
 }
 
 func upstreamStart() {
 	upstream.once.Do(func() {
 		upstream.files = map[string][]byte{}
+		upstream.faults = map[string]bool{}
 		ln, err := net.Listen("tcp", "127.0.0.1:0")
 		if err != nil {
 			upstream.err = err
@@ -59,10 +66,23 @@ func upstreamStart() {
 		go http.Serve(ln, http.HandlerFunc(func(w http.ResponseWriter, r *http.Request) {
 			upstream.Lock()
 			b, ok := upstream.files[r.URL.Path]
+			cut := upstream.faults[r.URL.Path]
+			delete(upstream.faults, r.URL.Path)
 			upstream.Unlock()
 			if !ok {
 				http.NotFound(w, r)
 				return
+			}
+			if cut && len(b) > 1 {
+				if hj, ok := w.(http.Hijacker); ok {
+					if conn, buf, err := hj.Hijack(); err == nil {
+						fmt.Fprintf(buf, "HTTP/1.1 200 OK\r\nContent-Type: text/plain; charset=utf-8\r\nContent-Length: %d\r\n\r\n", len(b))
+						buf.Write(b[:len(b)/2])
+						buf.Flush()
+						conn.Close()
+						return
+					}
+				}
 			}
 			w.Header().Set("Content-Type", "text/plain; charset=utf-8")
 			w.Write(b)
@@ -74,11 +94,12 @@ var toolSeq int
 
 // runTool runs the generator in a scratch directory against the given upstream files.
 func runTool(files map[string][]byte) (outDir string, cleanup func(), err error) {
-	return runToolIn("", files)
+	return runToolIn("", files, "")
 }
 
-// runToolIn runs the tool in dir (a fresh scratch directory when empty).
-func runToolIn(dir string, files map[string][]byte) (outDir string, cleanup func(), err error) {
+// runToolIn runs the tool in dir (a fresh scratch directory when empty); the first download of
+// faultTarget (if any) is cut half way.
+func runToolIn(dir string, files map[string][]byte, faultTarget string) (outDir string, cleanup func(), err error) {
 	tool := os.Getenv("VERIF_TOOL")
 	if tool == "" {
 		harnessError("c17: VERIF_TOOL not set")
@@ -105,6 +126,9 @@ func runToolIn(dir string, files map[string][]byte) (outDir string, cleanup func
 		upstream.Lock()
 		for name, b := range files {
 			upstream.files["/"+id+"/"+name+".txt"] = b
+		}
+		if faultTarget != "" {
+			upstream.faults["/"+id+"/"+faultTarget+".txt"] = true
 		}
 		upstream.Unlock()
 		defer func() {
@@ -280,10 +304,16 @@ var c17Check = register("C17", "c17.tool", func(c *toolCase) error {
 		dir = filepath.Dir(filepath.Dir(bdir))
 		sig += " rerun"
 	}
-	outDir, cleanup, err := runToolIn(dir, files)
+	outDir, cleanup, err := runToolIn(dir, files, c.FaultTarget)
 	defer cleanup()
+	if err != nil && c.FaultTarget != "" && upstream.err == nil {
+		return nil // the download was cut: aborting is what the unchanged tool does; nothing to judge
+	}
 	if err != nil {
 		return failf(sig+" tool-failed", "%v", err)
+	}
+	if c.FaultTarget != "" {
+		sig += " after-cut-download"
 	}
 	fset := token.NewFileSet()
 	var asts []*ast.File
@@ -368,7 +398,7 @@ func compileGenerated(outDir string) error {
 	return nil
 }
 
-const c17Rule = "C17: the update-wordlist binary, built from /repo with the verif hook, is run in a scratch directory against ten rapid-generated upstream files per case (a different list per target; 0..3000 lines of 1..12 letters/marks in Latin+diacritics, Han, kana+voicing marks, Hangul, golden words, arbitrary L/M runes; blank lines at start/middle/end; final newline present or absent), served by a loopback HTTP server, one case in three as a re-run over the (often longer) output of an earlier run in the same directory; plus the canonical lists (fresh directory and over an earlier run); plus an alphabet case containing every rune of categories L and M alone and after a base letter. Oracle (round trip): every output parses, the ten type-check as one package, each declares the variable lang.go consumes, and its elements equal the non-empty input lines byte for byte in order; canonical run equals the committed sources and the API's lists. Non-trivial: a file with a blank line, or without final newline, or with non-ASCII words; distinct by content"
+const c17Rule = "C17: the update-wordlist binary, built from /repo with the verif hook, is run in a scratch directory against ten rapid-generated upstream files per case (a different list per target; 0..3000 lines of 1..12 letters/marks in Latin+diacritics, Han, kana+voicing marks, Hangul, golden words, arbitrary L/M runes; blank lines at start/middle/end; final newline present or absent), served by a loopback HTTP server, one case in three as a re-run over the (often longer) output of an earlier run in the same directory; one case in four with the first download of one file cut half way (judged only if the tool still exits 0); plus the canonical lists (fresh directory and over an earlier run); plus an alphabet case containing every rune of categories L and M alone and after a base letter. Oracle (round trip): every output parses, the ten type-check as one package, each declares the variable lang.go consumes, and its elements equal the non-empty input lines byte for byte in order; canonical run equals the committed sources and the API's lists. Non-trivial: a file with a blank line, or without final newline, or with non-ASCII words; distinct by content"
 
 func c17Record(c *toolCase) {
 	cov.Eval(1)
@@ -457,6 +487,10 @@ func TestC17_Tool(t *testing.T) {
 				c.Before[l.File()] = wf
 			}
 			cov.Class("rerun-over-existing-output")
+		}
+		if c.Before == nil && rapid.IntRange(0, 3).Draw(rt, "fault") == 0 {
+			c.FaultTarget = ref.Lang(rapid.IntRange(0, int(ref.NumLangs)-1).Draw(rt, "fault-target")).File()
+			cov.Class("first-download-cut-half-way")
 		}
 		c17Record(c)
 		if k++; k == 3 {
